@@ -23,6 +23,9 @@ type c18Avoid struct {
 type c18Gen struct {
 	r     *lib.Rng
 	avoid c18Avoid
+	// text: documents for the text family; the value kinds that only the writers get wrong are
+	// avoided there and generated everywhere else
+	text bool
 }
 
 var c18Keys = []string{"a", "b", "c", "d", "key", "x1", "name", "Z_9"}
@@ -45,7 +48,7 @@ func (g *c18Gen) str() string {
 	for {
 		s := g.str1()
 		k := strKind(s)
-		if (g.avoid.keywordStr && k == "str-keyword") || (g.avoid.numberLikeStr && k == "str-number-like") {
+		if g.text && ((g.avoid.keywordStr && k == "str-keyword") || (g.avoid.numberLikeStr && k == "str-number-like")) {
 			continue
 		}
 		return s
@@ -92,7 +95,7 @@ func (g *c18Gen) integer() *jv {
 		return jInt(int64(g.r.Intn(2000) - 1000))
 	case g.r.Chance(40):
 		return jBig(bigOf(g.pick(c18IntBounds)))
-	case !g.avoid.bigInt && g.r.Chance(60):
+	case !(g.text && g.avoid.bigInt) && g.r.Chance(60):
 		if g.r.Chance(50) {
 			return jBig(bigOf(g.pick(c18BigInts)))
 		}
@@ -127,10 +130,10 @@ func (g *c18Gen) float() *jv {
 			continue
 		}
 		v := jFlo(f)
-		if g.avoid.integralFloat && (f == math.Trunc(f)) {
+		if g.text && g.avoid.integralFloat && (f == math.Trunc(f)) {
 			continue
 		}
-		if g.avoid.longFloat && floatHeldAsText(fmtFloat(f)) {
+		if g.text && g.avoid.longFloat && floatHeldAsText(fmtFloat(f)) {
 			continue
 		}
 		return v
@@ -440,7 +443,12 @@ func (g *c18Gen) goValue(depth int) *gv {
 		}
 		return &gv{kind: 'u', bits: bits, u: x}
 	case 6:
-		return &gv{kind: 'f', f: float64(float32(g.float().f))}
+		for {
+			f := float64(float32(g.float().f))
+			if !math.IsInf(f, 0) {
+				return &gv{kind: 'f', f: f}
+			}
+		}
 	case 7:
 		return &gv{kind: 'd', f: g.float().f}
 	case 8:
